@@ -128,6 +128,9 @@ def run(ctx):
     from fractions import Fraction as F
     decs = [("c", ("f", F(n, d))) for n, d in [(1, 128), (1, 64), (1, 1024), (3, 256), (-5, 512), (100001, 1000 * 1), (1, 16), (-1, 32), (12345, 1024), (7, 8), (1, 512)]
             if d & (d - 1) == 0] + [("c", ("f", F(100, 1) + F(1, 1024))), ("c", ("f", F(-3, 1) - F(1, 64)))]
+    # magnitudes at which repr() of a float switches to exponent notation (below 1e-4, from 1e16): seed C04-C printed 1e-05
+    decs += [("c", ("f", F(n, d))) for n, d in [(1, 16384), (1, 2 ** 20), (-3, 2 ** 17), (5, 2 ** 30), (1, 100000), (31, 1000000), (-7, 10 ** 7)]]
+    decs += [("c", ("f", F(v))) for v in (2.0 ** 60, 1e16, 1e22, -(2.0 ** 70), 123456789012345680000.0)]
     x = P.V("x")
     for c in decs:
         ts += [c, ("mul", c, x), ("mul", c, ("pow", x, P.C(2))), ("pow", x, c), ("neg", c), ("add", x, c), ("pow", c, P.C(2)), ("eq", ("mul", c, x), c), ("neg", ("mul", c, x)), ("div", c, ("sub", x, c))]
